@@ -104,6 +104,31 @@ def kernel_cases(rng, n_ops, quick, shapes=None, metrics=False, pz=0.1, neg=Fals
                     cases.append({"shape": name, "expr": expr, "ops": ops, "order": o3, "style": "tf", "extents": ext, "zshape": 1, "tile": {"v": v, "s": rng.choice([1, 2])},
                                   "tile2": {"v": w, "s": rng.choice([1, 2])}})
     if neg:
+        # cancelling rows, every loop order: the first factor holds +-1 (some absent) over 3 coordinates, the others are dense ones - whole output rows return to
+        # the default in the middle of a reduction (an existing output sub-fiber empties while new ones are created in the same pass)
+        for name in ("matmul", "matvec", "chain3"):
+            expr = SHAPES[name]
+            vs = variables(expr)
+            for _ in range(max(8, n_ops // 3)):
+                nc = 3
+                ext = {v: nc for v in vs}
+
+                def dense(depth, val):
+                    if depth == 0:
+                        return {"k": "L", "v": val()}
+                    return {"k": "F", "e": [[c, dense(depth - 1, val)] for c in range(nc)]}
+
+                def prune(t):
+                    if t["k"] == "L":
+                        return t
+                    e = [[c, prune(q)] for c, q in t["e"]]
+                    return {"k": "F", "e": [[c, q] for c, q in e if (q["k"] == "L" and q["v"] != 0) or (q["k"] == "F" and q["e"])]}
+                ops = {f["t"]: dense(len(f["ix"]), lambda: 1) for f in expr["facs"]}
+                first = expr["facs"][0]
+                ops[first["t"]] = prune(dense(len(first["ix"]), lambda: rng.choice([1, -1, 1, -1, 0])))
+                for order in itertools.permutations(vs):
+                    for style in ("tf", "lf"):
+                        cases.append({"shape": name, "expr": expr, "ops": ops, "order": list(order), "style": style, "extents": ext, "zshape": 1})
         # wide two-variable kernels: an output fiber of 10-16 coordinates populated pass by pass (a reduction rank looped above the output rank)
         for name in ("matvec", "reduce", "elem", "copy"):
             expr = SHAPES[name]
